@@ -116,6 +116,8 @@ def run(ctx):
         p = fba.path([t_t], nexts, incl=True)
         ok = p is None and any(fba.edge_dominates((sw, t_t), s) for s in somes)
         ctx.ob("R2.5", "%s|first-existing-wins" % F.key, ok, where=ctx.where(F, sw), detail="the existing side returns Some(candidate) without looking further" if ok else "search continues past an existing candidate")
+        common.mpt(ctx, "R2.5", "%s|every-missing-candidate-recorded" % F.key, F, [f_t], nexts + common.ok_returns(F), f_adds,
+                   "every candidate found missing gets its Created edge before the search goes on", "a missing higher-priority candidate can be skipped without a Created edge: creating it later does not rebuild the target")
         p = fba.path([f_t], common.ok_returns(F), avoid=frozenset(nexts), incl=True)
         ctx.ob("R2.5", "%s|missing=>continue" % F.key, p is None, where=ctx.where(F, sw), detail="a missing candidate continues the search")
         # add_dep path operand = do_dir.join(do_file) tested by exists
